@@ -1,4 +1,5 @@
 import Ezc3dVerif.Model.Api
+import Ezc3dVerif.Spec.Format
 /-
   Line protocol shared with the C++ harness: hex helpers, parsers, canonical dump.
   Not part of the proved model; it is the glue whose faithfulness the correspondence check tests.
@@ -123,5 +124,29 @@ def parseSub (s : String) : Option SubFrame :=
 
 def parsePts (s : String) : Option (List Point) := parseAll parsePoint (splitList s ";")
 def parseSubs (s : String) : Option (List SubFrame) := parseAll parseSub (splitList s "|")
+
+
+/-! ### the Spec decoder's view of a file, for the property oracles -/
+
+def pdataStr : Spec.PData → String × String
+  | .chars c => ("C", strList c)
+  | .bytes v => ("B", intList v)
+  | .ints v => ("I", intList v)
+  | .floats v => ("F", f32List v)
+
+def specLines (c : Spec.Content) (full : Bool) : List String :=
+  let h := c.header
+  [ s!"SZ {c.leadingZeros}",
+    s!"SH {h.paramBlock} {h.nPoints} {h.analogPerFrame} {h.firstFrame} {h.lastFrame} {h.maxGap} {hex8 h.scale} {h.dataStart} {h.subframes} {hex8 h.rate} {h.nEvents}",
+    s!"ST {f32List h.evTimes}", s!"SD {natList h.evDisplay}", s!"SL {strList h.evLabels}",
+    s!"SP {natList c.prologue} {b01 c.terminated} {c.paramEnd}" ]
+  ++ c.groups.map (fun g => s!"SG {g.gid} {xhex g.name} {b01 g.locked} {xhex g.desc}")
+  ++ c.params.map (fun p => let (t, v) := pdataStr p.data
+        s!"SQ {p.gid} {xhex p.name} {b01 p.locked} {t} {natList p.dims} {v} {xhex p.desc}")
+  ++ [s!"SN {c.frames.length} {c.dataBytesLeft}"]
+  ++ (if full then (enum c.frames).foldr (fun (i, f) acc =>
+        (s!"FR {i} {f.points.length} {f.analogs.length}" ::
+          (f.points.map fun p => s!"PT x {hex8 p.x} {hex8 p.y} {hex8 p.z} {hex8 p.residual}") ++
+          ((enum f.analogs).map fun (k, sf) => s!"SF {k} {sf.length} {f32List sf}")) ++ acc) [] else [])
 
 end Ezc3d.Proto
